@@ -27,9 +27,16 @@ BAD_HEADERS = {
 
 # reduced HTTP alphabet (symbol -> message factory)
 HTTP_SYMBOLS = ["start", "start-bad", "body-more", "body-final", "unknown", "start2", "hint", "push"]
-HTTP_EXTRA = ["trailers", "start-trailers", "push-badpath", "body-str", "start-bad-status"]
+HTTP_EXTRA = ["trailers", "start-trailers", "push-badpath", "body-str", "start-bad-status", "trailers-bad", "hint-bad",
+              "push-bad"]
 WS_SYMBOLS = ["accept", "send-text", "send-bytes", "close", "http-start", "http-body", "unknown", "send-nonstr"]
-WS_EXTRA = ["accept-bad-header", "http-start-bad", "http-body-more"]
+WS_EXTRA = ["accept-bad-header", "http-start-bad", "http-body-more", "send-text-bytes", "send-bytes-str", "send-empty"]
+# guided enumeration: every payload-bearing symbol after a prefix that reaches each state of the automaton
+HTTP_PREFIXES = [[], ["start"], ["start", "body-more"], ["start-trailers"], ["start-trailers", "body-final"],
+                 ["start", "body-final"]]
+WS_PREFIXES = [[], ["accept"], ["accept", "send-text"], ["http-start"], ["close"]]
+HTTP_PAYLOAD = ["start-bad", "trailers-bad", "hint-bad", "push-bad", "push-badpath", "body-str", "start-bad-status"]
+WS_PAYLOAD = ["accept-bad-header", "http-start-bad", "send-text-bytes", "send-bytes-str", "send-empty", "send-nonstr"]
 
 
 def http_message(sym: str, bad_kind: str = "crlf-value") -> dict:
@@ -59,6 +66,12 @@ def http_message(sym: str, bad_kind: str = "crlf-value") -> dict:
         return {"type": "http.response.push", "path": b"/pushed", "headers": []}
     if sym == "trailers":
         return {"type": "http.response.trailers", "headers": [(b"x-t", b"1")]}
+    if sym == "trailers-bad":
+        return {"type": "http.response.trailers", "headers": list(BAD_HEADERS[bad_kind])}
+    if sym == "hint-bad":
+        return {"type": "http.response.early_hint", "links": [b"</a>; rel=preload\r\nx-evil: 1"]}
+    if sym == "push-bad":
+        return {"type": "http.response.push", "path": "/pushed", "headers": list(BAD_HEADERS[bad_kind])}
     raise KeyError(sym)
 
 
@@ -73,6 +86,12 @@ def ws_message(sym: str, bad_kind: str = "crlf-value") -> dict:
         return {"type": "websocket.send", "bytes": b"\x00\x01"}
     if sym == "send-nonstr":
         return {"type": "websocket.send", "text": 123}
+    if sym == "send-text-bytes":
+        return {"type": "websocket.send", "text": b"raw"}
+    if sym == "send-bytes-str":
+        return {"type": "websocket.send", "bytes": "str"}
+    if sym == "send-empty":
+        return {"type": "websocket.send"}
     if sym == "close":
         return {"type": "websocket.close", "code": 1000}
     if sym == "http-start":
@@ -122,8 +141,17 @@ def model_http(seq: List[str], version: str, te_trailers: bool) -> List[bool]:
             ok = h2 and state == "REQUEST"
         elif sym == "push":
             ok = h2 and state in ("REQUEST", "RESPONSE")
-        elif sym == "push-badpath":
+        elif sym in ("push-badpath", "hint-bad", "push-bad"):
             ok = False
+        elif sym == "trailers-bad":
+            if h2 and state == "REQUEST":
+                ok = None
+                state = "UNJUDGED"
+            elif h2 and state == "TRAILERS":
+                # without "te: trailers" the message is dropped unread, which is neither demanded nor forbidden
+                ok = False if te_trailers else None
+            else:
+                ok = False
         elif sym == "trailers":
             if h2 and state == "REQUEST":
                 # hypercorn deliberately answers a trailers-only response here (gRPC style); the ASGI
@@ -180,6 +208,17 @@ def plan(tier: str) -> dict:
                 cases.append({"worker": worker, "case": {"kind": "http", "carrier": carrier, "seqs": http_seqs[i:i + batch]}})
             for i in range(0, len(ws_seqs), batch):
                 cases.append({"worker": worker, "case": {"kind": "ws", "carrier": carrier, "seqs": ws_seqs[i:i + batch]}})
+    for worker in ("asyncio", "trio"):
+        for carrier in ("h1", "h2"):
+            for bad_kind in sorted(BAD_HEADERS):
+                seqs = [pre + [sym] + ["body-final"] for pre in HTTP_PREFIXES for sym in HTTP_PAYLOAD
+                        if "bad" in sym and sym != "start-bad-status" or bad_kind == "crlf-value"]
+                cases.append({"worker": worker, "case": {"kind": "http", "carrier": carrier, "named": seqs,
+                                                         "bad_kind": bad_kind}})
+                seqs = [pre + [sym] + ["send-text"] for pre in WS_PREFIXES for sym in WS_PAYLOAD
+                        if "bad" in sym or bad_kind == "crlf-value"]
+                cases.append({"worker": worker, "case": {"kind": "ws", "carrier": carrier, "named": seqs,
+                                                         "bad_kind": bad_kind}})
     return {
         "runs": 2000 if tier == "quick" else 100000,
         "budget": 120 if tier == "quick" else 2400,
@@ -191,7 +230,9 @@ def plan(tier: str) -> dict:
         "alphabet (trailers, bad payload kinds for every header position) and a client FIN/RST at a tape-chosen "
         "point. Every message is judged against a reference automaton of the ASGI specification; the server's "
         "socket output is compared before and after each rejected call.",
-        "enumerated": [f"{len(http_seqs)} HTTP and {len(ws_seqs)} WebSocket sequences x 2 carriers x 2 workers"],
+        "enumerated": [f"{len(http_seqs)} HTTP and {len(ws_seqs)} WebSocket sequences x 2 carriers x 2 workers",
+                       "every payload-bearing symbol (bad response/trailer/push/hint/accept/denial headers, wrong body and "
+                       "text/bytes types) x 7 bad-header kinds after a prefix reaching every state x 2 carriers x 2 workers"],
         "assumptions": ["the enumeration, not the schedule, decides most of this property (DESIGN 5/C12)"],
     }
 
@@ -247,8 +288,11 @@ def run(tape: Tape, params: dict) -> Outcome:
     if enumerated:
         kind, carrier = case["kind"], case["carrier"]
         symbols = HTTP_SYMBOLS if kind == "http" else WS_SYMBOLS
-        seqs = [[symbols[i] for i in s] for s in case["seqs"]]
-        bad_kind = "crlf-value"
+        if "named" in case:
+            seqs = [list(x) for x in case["named"]]
+        else:
+            seqs = [[symbols[i] for i in x] for x in case["seqs"]]
+        bad_kind = case.get("bad_kind", "crlf-value")
         te = True
     else:
         kind = ["http", "ws"][tape.weighted([3, 2], "kind")]
